@@ -355,6 +355,13 @@ impl<L: Lay> LaySut<L> {
             C::Table(t) => t.len(),
         }
     }
+    pub fn capacity(&self) -> usize {
+        match &self.c {
+            C::Set(s) => s.capacity(),
+            C::Map(m) => m.capacity(),
+            C::Table(t) => t.capacity(),
+        }
+    }
     fn alloc_size(&self) -> usize {
         match &self.c {
             C::Set(s) => s.allocation_size(),
@@ -522,11 +529,13 @@ pub struct LayHarness<L: Lay> {
     pub plan: [u64; 256],
     pub universe: u8,
     pub leak_probes: bool,
+    /// C12: try_reserve over the amount grid x allocator behaviours in every state
+    pub try_reserve_probes: bool,
     pub _p: PhantomData<fn() -> L>,
 }
 impl<L: Lay> LayHarness<L> {
     pub fn new(coll: Coll, plan: Plan, universe: u8, leak_probes: bool) -> Self {
-        LayHarness { coll, plan_kind: plan, plan: plan.table(), universe: universe.min(L::MAX_IDS), leak_probes, _p: PhantomData }
+        LayHarness { coll, plan_kind: plan, plan: plan.table(), universe: universe.min(L::MAX_IDS), leak_probes, try_reserve_probes: false, _p: PhantomData }
     }
     pub fn label(&self) -> String {
         format!("{:?}<{}>-{}-u{}", self.coll, L::NAME, self.plan_kind.name(), self.universe)
@@ -650,6 +659,138 @@ impl<L: Lay> LayHarness<L> {
     }
 }
 
+impl<L: Lay> LayHarness<L> {
+    fn try_reserve_probe(&self, rebuild: &dyn Fn() -> LaySut<L>, sut: &mut LaySut<L>, stats: &Stats) -> Result<(), String> {
+        use hashbrown::TryReserveError;
+        let len = sut.len();
+        let cap = sut.capacity();
+        let d0 = sut.dump();
+        let full_cap = hashbrown::verif::bucket_mask_to_capacity(d0.bucket_mask);
+        let (size, ctrl_align) = match self.coll {
+            Coll::Set => hashbrown::verif::table_layout_of::<(L, ())>(),
+            Coll::Map => hashbrown::verif::table_layout_of::<(L, L)>(),
+            Coll::Table => hashbrown::verif::table_layout_of::<L>(),
+        };
+        let w = hashbrown::verif::GROUP_WIDTH;
+        let mut adds: Vec<usize> = (0..=2 * cap + 2).collect();
+        for k in 2..64u32 {
+            let b = ((1u128 << k) / 8 * 7) as usize;
+            adds.extend([b.wrapping_sub(1), b, b.wrapping_add(1)]);
+        }
+        let sz = size.max(1);
+        adds.extend([
+            isize::MAX as usize - 1,
+            isize::MAX as usize,
+            isize::MAX as usize + 1,
+            usize::MAX,
+            usize::MAX - 1,
+            usize::MAX - len,
+            (usize::MAX - len).wrapping_add(1),
+            usize::MAX / sz - 1,
+            usize::MAX / sz,
+            (usize::MAX / sz).wrapping_add(1),
+            usize::MAX / 8,
+            usize::MAX / 8 + 1,
+            isize::MAX as usize / sz,
+            isize::MAX as usize / sz + 1,
+            isize::MAX as usize / sz / 2,
+        ]);
+        adds.sort_unstable();
+        adds.dedup();
+        let mut count = 0u64;
+        for behaviour in 0..2 {
+            for &add in &adds {
+                let mut s = rebuild();
+                let before = s.dump();
+                let before_blocks = env::live_blocks();
+                env::with(|e| {
+                    e.refused.clear();
+                    e.requests.clear();
+                    e.log_requests = true;
+                    e.refuse_above = Some(1 << 20);
+                    e.refuse_at = if behaviour == 1 { Some(0) } else { None };
+                });
+                let r = env::catch(|| match &mut s.c {
+                    C::Set(c) => c.try_reserve(add),
+                    C::Map(c) => c.try_reserve(add),
+                    C::Table(c) => c.try_reserve(add, thash),
+                });
+                let (refused, requests) = env::with(|e| {
+                    e.log_requests = false;
+                    e.refuse_above = None;
+                    e.refuse_at = None;
+                    (std::mem::take(&mut e.refused), std::mem::take(&mut e.requests))
+                });
+                let what = format!("{:?}<{}>::try_reserve({add}) (len {len}, capacity {cap})", self.coll, L::NAME);
+                let r = match r {
+                    Ok(r) => r,
+                    Err(m) => return Err(format!("{what} panicked: {m}")),
+                };
+                let new_items = len as u128 + add as u128;
+                let expect: Result<Option<(usize, usize)>, ()> = if add <= cap - len {
+                    Ok(None)
+                } else if new_items > usize::MAX as u128 {
+                    Err(())
+                } else if new_items <= (full_cap / 2) as u128 {
+                    Ok(None)
+                } else {
+                    match crate::mapprobes::ref_layout(new_items.max(full_cap as u128 + 1), size, ctrl_align, w) {
+                        None => Err(()),
+                        Some(l) => Ok(Some(l)),
+                    }
+                };
+                for rq in &requests {
+                    if !rq.1.is_power_of_two() || rq.0 > isize::MAX as usize - (rq.1 - 1) {
+                        return Err(format!("{what} asked the allocator for an invalid layout {:?}", rq));
+                    }
+                }
+                match (&r, &expect) {
+                    (Ok(()), Ok(l)) => {
+                        if !refused.is_empty() {
+                            return Err(format!("{what} returned Ok although the allocator refused {:?}", refused));
+                        }
+                        if let Some(l) = l {
+                            if requests.first() != Some(l) {
+                                return Err(format!("{what} requested {:?}, reference layout {:?}", requests, l));
+                            }
+                        } else if !requests.is_empty() {
+                            return Err(format!("{what} allocated {:?} although no allocation is needed", requests));
+                        }
+                        if s.capacity() < len + add {
+                            return Err(format!("{what} = Ok but capacity() is {}", s.capacity()));
+                        }
+                    }
+                    (Err(TryReserveError::CapacityOverflow), Err(())) => {}
+                    (Err(TryReserveError::AllocError { layout }), Ok(Some(l))) => {
+                        if refused.len() != 1 || refused[0] != (layout.size(), layout.align()) {
+                            return Err(format!("{what}: AllocError carries {:?} but the allocator refused {:?}", layout, refused));
+                        }
+                        if (layout.size(), layout.align()) != *l {
+                            return Err(format!("{what}: refused layout {:?}, reference {:?}", layout, l));
+                        }
+                    }
+                    (got, want) => {
+                        return Err(format!("{what} returned {:?}, reference expects {:?} [Err(()) = CapacityOverflow, Ok(Some(layout)) = allocation of layout]", got, want));
+                    }
+                }
+                if r.is_err() {
+                    if s.dump() != before {
+                        return Err(format!("{what} failed but changed the table"));
+                    }
+                    if env::live_blocks() != before_blocks {
+                        return Err(format!("{what} failed but changed the set of live allocations"));
+                    }
+                }
+                s.check_all(self.universe, true).map_err(|m| format!("after {what} = {:?}: {m}", r))?;
+                s.finish(false).map_err(|m| format!("after {what}: {m}"))?;
+                count += 1;
+            }
+        }
+        stats.probe(count);
+        Ok(())
+    }
+}
+
 impl<L: Lay> Harness for LayHarness<L> {
     type Op = LOp;
     type Sut = LaySut<L>;
@@ -731,6 +872,9 @@ impl<L: Lay> Harness for LayHarness<L> {
         s.finish(false)
     }
     fn probes(&self, rebuild: &dyn Fn() -> LaySut<L>, s: &mut LaySut<L>, stats: &Stats) -> Result<(), String> {
+        if self.try_reserve_probes {
+            self.try_reserve_probe(rebuild, s, stats)?;
+        }
         if !self.leak_probes {
             return Ok(());
         }
@@ -741,6 +885,67 @@ impl<L: Lay> Harness for LayHarness<L> {
                 let mut f = rebuild();
                 self.leak_probe(&mut f, what, j)?;
                 f.finish(true).map_err(|m| format!("dropping the collection after leaking {:?} at step {j}: {m}", what))?;
+                count += 1;
+            }
+        }
+        // non-leaking consumption: j steps of an owning / draining iterator, then drop it
+        for j in 0..=n + 1 {
+            for kind in 0..3u8 {
+                let mut f = rebuild();
+                let want: Vec<u8> = {
+                    let mut m = f.model.clone();
+                    m.sort_unstable();
+                    m
+                };
+                let mut got: Vec<u8> = Vec::new();
+                macro_rules! consume {
+                    ($it:expr, $id:expr) => {{
+                        let mut it = $it;
+                        for _ in 0..j {
+                            match it.next() {
+                                Some(x) => got.push($id(&x)),
+                                None => break,
+                            }
+                        }
+                        if kind == 2 {
+                            it.for_each(|x| got.push($id(&x)));
+                        } else {
+                            drop(it);
+                        }
+                    }};
+                }
+                if kind == 0 {
+                    match &mut f.c {
+                        C::Set(c) => consume!(c.drain(), |e: &L| e.id()),
+                        C::Map(c) => consume!(c.drain(), |e: &(L, L)| e.0.id()),
+                        C::Table(c) => consume!(c.drain(), |e: &L| e.id()),
+                    }
+                } else {
+                    let c = std::mem::replace(
+                        &mut f.c,
+                        match self.coll {
+                            Coll::Set => C::Set(HashSet::default()),
+                            Coll::Map => C::Map(HashMap::default()),
+                            Coll::Table => C::Table(HashTable::default()),
+                        },
+                    );
+                    match c {
+                        C::Set(c) => consume!(c.into_iter(), |e: &L| e.id()),
+                        C::Map(c) => consume!(c.into_iter(), |e: &(L, L)| e.0.id()),
+                        C::Table(c) => consume!(c.into_iter(), |e: &L| e.id()),
+                    }
+                }
+                f.model.clear();
+                let what = ["drain", "into_iter", "into_iter + for_each"][kind as usize];
+                got.sort_unstable();
+                if kind == 2 && got != want {
+                    return Err(format!("{what} after {j} steps yielded ids {:?}, reference {:?}", got, want));
+                }
+                if got.windows(2).any(|w| w[0] == w[1]) || got.iter().any(|g| !want.contains(g)) {
+                    return Err(format!("{what}: {j} steps yielded ids {:?}, reference {:?}", got, want));
+                }
+                f.check_all(self.universe, false).map_err(|m| format!("after {what} dropped at step {j}: {m}"))?;
+                f.finish(false).map_err(|m| format!("after {what} dropped at step {j}: {m}"))?;
                 count += 1;
             }
         }
